@@ -58,7 +58,24 @@ fn dispatch(req: &Value) -> R {
     }
 }
 
+/// Requests are served on ONE worker thread (thread-local state of the library survives between requests, as in an application
+/// that keeps using one thread) whose stack has the size of an ordinary spawned Rust thread: 2 MiB, the default of
+/// `std::thread::spawn`, of the libtest harness and of most runtimes' workers. `BSVDRV_STACK` overrides it.
 fn main() {
+    #[cfg(miri)]
+    {
+        real_main();
+        return;
+    }
+    #[cfg(not(miri))]
+    {
+        let sz = std::env::var("BSVDRV_STACK").ok().and_then(|s| s.parse::<usize>().ok()).unwrap_or(2 << 20);
+        let h = std::thread::Builder::new().name("bsvdrv-worker".into()).stack_size(sz).spawn(real_main).expect("cannot spawn the worker thread");
+        let _ = h.join();
+    }
+}
+
+fn real_main() {
     let args: Vec<String> = std::env::args().collect();
     let mut in_path: Option<String> = None;
     let mut out_path: Option<String> = None;
